@@ -2,6 +2,7 @@ import Toxi.Driver.E1
 import Toxi.Driver.E2
 import Toxi.Driver.E3
 import Toxi.Driver.E4
+import Toxi.Driver.E5
 import Toxi.Driver.E6
 /-
 Model driver: reads one protocol line per operation on stdin, answers one line on stdout.
@@ -47,6 +48,7 @@ def main (args : List String) : IO UInt32 := do
   | ["e1"] => loopR hin hout E1.init E1.step E1.init; return 0
   | ["e3"] => loopR hin hout E3.init E3.step E3.init; return 0
   | ["e6"] => loopR hin hout E6.init E6.step E6.init; return 0
+  | ["e5"] => loopR hin hout E5.init E5.step E5.init; return 0
   | ["e4"] => loopR hin hout E4.init E4.step E4.init; return 0
   | ["e2"] => loopR hin hout E2.init E2.step E2.init; return 0
   | _ => IO.eprintln "usage: driver e1|..."; return 2
